@@ -105,7 +105,7 @@ fn float_case(st: &mut Stats, rng: &mut Rng, rows: usize, cols: usize) {
 
 pub fn run(ctx: &Ctx) -> Report {
     let nshape = 121u64; // [0,10]^2
-    let reps = ctx.vol(1500, 60_000);
+    let reps = ctx.vol(10_000, 600_000);
     let stats = par_run(ctx, TAG, nshape, |u, rng, st| {
         let (r, c) = ((u / 11) as usize, (u % 11) as usize);
         for _ in 0..reps { exact_case(st, rng, r, c); float_case(st, rng, r, c); }
